@@ -19,7 +19,7 @@ Expected(hs) == LET js == {JOf(BP, x) : x \in hs} IN
               \A x \in {y \in hs : JOf(BP, y) = j} : r >= RhoOf(BP, x)>> : j \in js}
 P(e, base) ==
     LET alt == IF Has(e, "alt") THEN "C19+" ELSE ""
-        op  == CASE e.op.name = "merge" -> "C06+" [] e.op.name = "clear" -> "C19+" [] e.op.name = "roundtrip" -> "C20+" [] OTHER -> ""
+        op  == CASE e.op.name = "merge" -> "C06+" [] e.op.name = "clear" -> "C19+" [] e.op.name = "roundtrip" -> "C20+" [] e.op.name = "reconstruct" -> "C17+" [] OTHER -> ""
     IN alt \o op \o base
 Failing(e) ==
     LET gp == GhostPost(e)
